@@ -235,6 +235,62 @@ def check_early(ctx, P):
             witness=bad[1] if bad else None, construct="tick base outside lock")
 
 
+def check_tree(ctx, P):
+    ins = P.fn("waiter_insert")
+    o = ctx.ob("tree.insert", ins, "waiter_insert descends left exactly for a smaller wake tick, right exactly for a larger one, and chains the node through `next` "
+               "exactly for an equal one", "waiter_remove_less_than examines the leftmost node first and stops when it is not due: a smaller tick filed to the "
+               "right is not seen until its larger parent expires (woken late or never); a node overwriting an equal-tick node loses that sleeper")
+    isN = lambda n: (n.k == "ImplicitCastExpr" and n.ck == "LValueToRValue" and strip(n).k == "MemberExpr" and strip(n).field == "wake_time"
+                     and strip(strip(n).kids[0]).k == "DeclRefExpr" and strip(strip(n).kids[0]).name == "node")
+    isT = lambda n: (n.k == "ImplicitCastExpr" and n.ck == "LValueToRValue" and strip(n).k == "MemberExpr" and strip(n).field == "wake_time" and not isN(n))
+    isStar = lambda n: n.k == "ImplicitCastExpr" and n.ck == "LValueToRValue" and strip(n).k == "UnaryOperator" and strip(n).op == "*"
+    tp = [p for p in ins.params if p["name"] == "tree"]
+    bad = None
+    if not tp:
+        bad = "shape"
+    else:
+        desc = {}
+        for kind, node, val in ins.defs().get(tp[0]["did"], []):
+            if kind == "assign" and val is not None:
+                k = ins.key(val)
+                for side in ("left", "right"):
+                    if key_mentions(k, lambda x, side=side: x[0] == "f" and x[1] == "waiter_el" and x[2] == side):
+                        desc[side] = node
+        chain = [s_.node for s_ in ins.stores_to("waiter_el", "next") if strip(s_.value).k == "DeclRefExpr" and strip(s_.value).name == "node"]
+        keep = [s_.node for s_ in ins.stores_to("waiter_el", "next") if s_.node not in chain]
+        if set(desc) != {"left", "right"} or len(chain) != 1 or len(keep) != 1:
+            bad = "descent / chaining statements not found"
+        else:
+            for N in range(3):
+                for T in range(3):
+                    atom = atom_from([(isN, N), (isT, T), (isStar, 4096)])
+                    e = forced_edges(ins, atom)
+                    # start inside the loop: from the first comparison on
+                    gl = ins.find_path("entry", lambda n: n is desc["left"], edge_ok=e) is not None
+                    gr = ins.find_path("entry", lambda n: n is desc["right"], edge_ok=e) is not None
+                    gc = ins.find_path("entry", lambda n: n is chain[0], edge_ok=e) is not None
+                    if (gl, gr, gc) != (N < T, N > T, N == T):
+                        bad = bad or "new tick %d vs node tick %d: goes left=%s right=%s chained=%s" % (N, T, gl, gr, gc)
+            if ins.dominated_by(chain[0], nodeset(keep)) is not None:
+                bad = bad or "the equal-tick chain is overwritten (the earlier sleepers of that tick are lost)"
+    o.check(bad is None, "3x3 comparison table", bad, site=ins.loc, construct="sleep tree insertion order")
+    rm = P.fn("waiter_remove_less_than")
+    o = ctx.ob("tree.remove", rm, "waiter_remove_less_than descends to the leftmost node before it decides, and unlinks the removed node by putting its right subtree in its place",
+               "deciding on an inner node misses smaller ticks in its left subtree (they wake late); dropping the right subtree loses every later sleeper")
+    bad = None
+    isL = lambda n: n.k == "ImplicitCastExpr" and n.ck == "LValueToRValue" and strip(n).k == "MemberExpr" and strip(n).field == "left"
+    valrets = [r for r in rm.returns() if r.kids and strip(r.kids[0]).cv != 0]
+    isW = is_param_load(rm, "wake_time")
+    atom = atom_from([(isL, 4096), (isStar, 4096), (isW, 9), (isT, 1)])
+    e = forced_edges(rm, atom)
+    if any(rm.find_path("entry", lambda n, r=r: n is r, edge_ok=e) is not None for r in valrets):
+        bad = "a node with a left child is removed although its left subtree holds smaller ticks"
+    repl = [s_ for s_ in rm.stores() if rm.target_key(s_.target)[0] == "*" and s_.value is not None and key_mentions(rm.key(s_.value), lambda x: x[0] == "f" and x[2] == "right")]
+    if len(repl) != 1 or any(rm.dominated_by(r, nodeset([repl[0].node])) is not None for r in valrets):
+        bad = bad or "the removed node is not replaced by its right subtree"
+    o.check(bad is None, "leftmost first; right subtree kept", bad, site=rm.loc, construct="sleep tree removal")
+
+
 def check_shims(ctx, P):
     isTL = is_global_load("thread_locked")
     isMG = lambda n: n.k == "CallExpr" and n.callee == "fiber_manager_get"
@@ -305,4 +361,5 @@ def run(ctx):
     check_register(ctx, P)
     check_wake(ctx, P)
     check_early(ctx, P)
+    check_tree(ctx, P)
     check_shims(ctx, P)
